@@ -34,3 +34,4 @@ PROP = {
                                  "tolerances 1e-12 / 1e-3 / 1e-7 are the numbers stated by the property"],
 }
 PROP["level_text"] += ' Binomial coefficients are also asked for in fresh processes whose factorial memo is still short (32 eps for n <= 170); arguments exactly at the ends of the a > 100 quadrature window and subnormal x are part of the grid.'
+PROP["level_text"] += " P and Q are also evaluated in fresh child processes whose first incomplete-gamma call sits at an end of the a > 100 quadrature window, at x = 0, or at an ordinary argument."
